@@ -659,6 +659,46 @@ def gen_captured(tier):
                 return g.build()
 
             yield f"captured/reshape/{'x'.join(map(str, s1))}/{variant}", build
+    # rewrites that REPLACE a producer (Mul*Sigmoid -> Swish, Mul*Reciprocal(Sqrt) -> Div, CSE twins,
+    # Dropout constants): the replaced value may be captured by a body
+    for opset in (23, 24):
+        for variant in ("sigmoid_in_if", "mul_in_if"):
+            def build(opset=opset, variant=variant):
+                g = GB(opset)
+                x = g.inp("x", F, (3,))
+                c = g.inp("c", TP.BOOL, ())
+                sg = g.node("Sigmoid", [x])
+                m = g.node("Mul", [x, sg])
+                g.out(m)
+                g.out(_if_using(g, c, sg if variant == "sigmoid_in_if" else m, (3,), then_op="Neg", else_op="Abs"))
+                return g.build()
+
+            yield f"captured/swish/opset{opset}/{variant}", build
+    for variant in ("sqrt_in_if", "recip_in_if"):
+        def build(variant=variant):
+            g = GB()
+            x = g.inp("x", F, (3,))
+            y = g.inp("y", F, (3,))
+            c = g.inp("c", TP.BOOL, ())
+            sq = g.node("Sqrt", [y])
+            r = g.node("Reciprocal", [sq])
+            g.out(g.node("Mul", [x, r]))
+            g.out(_if_using(g, c, sq if variant == "sqrt_in_if" else r, (3,)))
+            return g.build()
+
+        yield f"captured/rsqrt/{variant}", build
+    for variant in ("twin_in_if",):
+        def build(variant=variant):
+            g = GB()
+            x = g.inp("x", F, (3,))
+            c = g.inp("c", TP.BOOL, ())
+            a = g.node("Relu", [x])
+            b = g.node("Relu", [x])
+            g.out(g.node("Add", [a, g.const(np.array(1.0, dtype=np.float32))]))
+            g.out(_if_using(g, c, b, (3,)))
+            return g.build()
+
+        yield f"captured/cse/{variant}", build
     for a, b in (("f32", "f16"), ("i32", "i8"), ("f32", "f32")):
         def build(a=a, b=b):
             g = GB()
